@@ -191,6 +191,24 @@ static bool handle_ns(const std::string& cmd, const Words& w, const std::string&
     size_t i = read_setup(w, s);
     NeighborSearch ns(s.model, s.cell, s.rbuild);
     ns.populate(s.include_h);
+    // every stored mark is its atom moved by get_image_transformation(image_idx), up to a lattice translation
+    for (const std::vector<NeighborSearch::Mark>& marks : ns.grid.data)
+      for (const NeighborSearch::Mark& m : marks) {
+        int ai = atom_index(s, m);
+        if (ai < 0) { out = "mark with indices of no atom"; return true; }
+        if (!ns.use_pbc) continue;
+        Fractional f = ns.grid.unit_cell.fractionalize(s.atoms[ai]->pos);
+        Fractional fi = ns.get_image_transformation(m.image_idx).apply(f);
+        Fractional fm = ns.grid.unit_cell.fractionalize(m.pos);
+        double d[3] = {fi.x - fm.x, fi.y - fm.y, fi.z - fm.z};
+        for (double x : d)
+          if (std::fabs(x - std::round(x)) > 1e-6)
+            { out = "mark of atom " + std::to_string(ai) + " is not the image " + std::to_string(m.image_idx) +
+                    " given by get_image_transformation"; return true; }
+      }
+    bool threw = false;
+    try { ns.get_image_transformation((int) ns.grid.unit_cell.images.size() + 1); } catch (std::exception&) { threw = true; }
+    if (!threw) { out = "get_image_transformation accepts an index beyond the images"; return true; }
     int nq = (int) to_ll(w.at(i++));
     for (int qn = 0; qn < nq; ++qn) {
       Position q(rat(w.at(i)), rat(w.at(i+1)), rat(w.at(i+2)));
